@@ -178,6 +178,11 @@ def tasks_for(tier):
         ('crash', dict(levy='none', size=(1,), tol=0.03, cache_size=1, t1=Fraction(1, 2)), 2, True, mp, to),
         ('crash', dict(levy='none', size=(1,), cache_size=2, dt=0.25), 1, True, mp, to),
         ('crash', dict(levy='none', size=(1,), cache_size=0, dt=0.25), 1, True, mp, to),
+        # end points off the tolerance grid (they must be resolved like every query time)
+        ('crash', dict(levy='none', size=(1,), tol=0.1, t0=Fraction(1, 3), t1=Fraction(5, 6)), 1, True, mp, to),
+        # a dt hint together with a tolerance: the pieces of the pre-built tree (0.8 * dt * cache_size) are shorter than tol
+        ('crash', dict(levy='none', size=(1,), cache_size=1, dt=0.1, tol=0.1, t1=Fraction(1, 2)), 1, True, mp, to),
+        ('crash', dict(levy='space-time', size=(1,), cache_size=2, dt=0.03, tol=0.1, t1=Fraction(1, 2)), 1, True, mp, to),
         ('chain', dict(levy='none', size=(1,), cache_size=1), 6, True, mp, to),
         ('chain', dict(levy='space-time', size=(1,), cache_size=2, warm=True), 6, False, mp, to),
         ('chain', dict(levy='none', size=(1,), cache_size=0, warm=True), 5, True, mp, to),
@@ -261,7 +266,7 @@ def run(ctx):
     ctx.stubs += bshim.STUBS
     ctx.bounds = {'queries per history (crash exploration)': '<=2 arbitrary symbolic real times (off-grid, sub-tolerance, zero-length included)',
                   'chain lengths compared': 'K vs 2K, K = 5-6 (quick) / 10, symbolic step length in [span/(2K+2), span/2K]', 'stack head-room during crash exploration': f'{RECDEPTH} Python frames',
-                  'configs': 'the sdeint default (cache_size 45, no dt hint, tol 0) read back from the real check_contract; cache_size 0/1/2/45/None, dt hint or not, tol 0/0.1/0.01, halfway_tree, all Levy modes'}
+                  'configs': 'dt hint combined with tol > 0 (pieces shorter than the tolerance); the sdeint default (cache_size 45, no dt hint, tol 0) read back from the real check_contract; cache_size 0/1/2/45/None, dt hint or not, tol 0/0.1/0.01, halfway_tree, all Levy modes'}
     ctx.assumptions += ['documented validity predicate of the constructor only', 'a RecursionError within %d frames of head-room, or a path cut at the branch bound, is replayed on floats with the default recursion limit and a time limit before being reported' % RECDEPTH]
     ctx.outside += ['histories of tens of thousands of queries as such: decided through history-independence of the frame depth on small chains; long runs are replay material']
     tasks = tasks_for(ctx.tier)
